@@ -289,7 +289,11 @@ impl Explorer {
         let t0 = Instant::now();
         let mut total = Local::default();
         let mut reports = Vec::new();
-        for space in spaces {
+        // smallest spaces first: if the exploration budget runs out, what is cut is the tail of
+        // the largest enumeration, not a small targeted space that happened to be listed late
+        let mut order: Vec<&Space> = spaces.iter().collect();
+        order.sort_by_key(|s| (s.atoms.len() as u64).max(1).saturating_pow(s.max_len as u32));
+        for space in order {
             let k = space.atoms.len() as u64;
             let mut levels_completed = 0usize;
             let mut inputs = 0u64;
